@@ -166,6 +166,29 @@ def run(res, ctx):
             res.case(("cli",) + tuple(argv[:4]), True)
             if r["exc"] is not None or r["exit"] != 2:
                 res.violation("a test ID both included and excluded is not rejected with exit status 2", {"argv": argv[:4], "exit": r["exit"], "exc": r["exc"]})
+        # named (legacy) profiles of a configuration file, selected with -p: the same restriction through another carrier (seeded change C05-m6: the
+        # legacy conversion leaves an EMPTY `blacklist` entry in every profile, which a changed test then took for a legacy override — no blacklist
+        # finding under any -p run)
+        import json as _json, yaml as _yaml
+        prog = scratch.fresh("prof.py", b"import pickle\nimport subprocess\nassert x\nexec(c)\npickle.loads(b)\nimport telnetlib\n")
+        cfgp = scratch.fresh("profiles.yaml", _yaml.safe_dump({"profiles": {"picked": {"include": ["B403", "B301", "exec_used"]}, "no_assert": {"exclude": ["assert_used"]},
+                                                                           "all_bl": {"include": ["B001", "B101"]}, "bl_names": {"include": ["pickle", "import_telnetlib"]}}}).encode())
+        r0 = C.run_cli(["-f", "json", "-q", prog])
+        allf = sorted((x["test_id"], x["line_number"]) for x in _json.loads(r0["out"])["results"])
+        wants = {"picked": lambda i: i in ("B403", "B301", "B102"), "no_assert": lambda i: i != "B101", "all_bl": lambda i: i in blids or i == "B101",
+                 "bl_names": lambda i: i in ("B301", "B401")}
+        for name, keep in wants.items():
+            r = C.run_cli(["-c", cfgp, "-p", name, "-f", "json", "-q", prog])
+            res.case(("profile", name), True)
+            res.count("named-profile")
+            try:
+                got = sorted((x["test_id"], x["line_number"]) for x in _json.loads(r["out"])["results"])
+            except Exception:
+                got = None
+            exp = [f for f in allf if keep(f[0])]
+            if r["exc"] or got != exp:
+                res.violation("findings under a named profile differ from the selected findings of the unrestricted run",
+                              {"profile": name, "expected": exp, "got": got, "exit": r["exit"], "exc": r["exc"]})
     finally:
         scratch.close()
         if d is not None:
